@@ -253,6 +253,35 @@ enum Cmd {
     Close,
 }
 
+/// Asks the deserializer for bytes and takes whatever it is handed: bytes, a string, or a sequence.
+#[derive(Debug, PartialEq, Clone)]
+struct Blobish(Vec<u8>);
+impl<'de> serde::Deserialize<'de> for Blobish {
+    fn deserialize<D: serde::Deserializer<'de>>(d: D) -> Result<Self, D::Error> {
+        struct V;
+        impl<'de> serde::de::Visitor<'de> for V {
+            type Value = Blobish;
+            fn expecting(&self, f: &mut std::fmt::Formatter) -> std::fmt::Result {
+                f.write_str("bytes, a string or a sequence of bytes")
+            }
+            fn visit_bytes<E: serde::de::Error>(self, v: &[u8]) -> Result<Blobish, E> {
+                Ok(Blobish(v.to_vec()))
+            }
+            fn visit_str<E: serde::de::Error>(self, v: &str) -> Result<Blobish, E> {
+                Ok(Blobish(v.as_bytes().to_vec()))
+            }
+            fn visit_seq<A: serde::de::SeqAccess<'de>>(self, mut a: A) -> Result<Blobish, A::Error> {
+                let mut out = vec![];
+                while let Some(b) = a.next_element::<u8>()? {
+                    out.push(b);
+                }
+                Ok(Blobish(out))
+            }
+        }
+        if std::env::var_os("C14_BLOBISH_BUF").is_some() { d.deserialize_byte_buf(V) } else { d.deserialize_bytes(V) }
+    }
+}
+
 /// Rows that differ only in numbers the crate's tolerant `==` calls equal.
 #[derive(Serialize, Deserialize, PartialEq, Debug, Clone)]
 struct Sample {
@@ -466,6 +495,7 @@ fn foreign_pool() -> Vec<Value> {
         json!("127.0.0.1"), json!("::1"), json!("x"), json!({"V4": [127, 0, 0, 1]}),
         json!({"Ok": 1}), json!({"Err": "e"}), json!({"Ok": "e"}), json!({"ok": 1}), json!({"Ok": 1, "Err": "e"}),
         json!({"start": 1, "end": 5}), json!({"start": 1}), json!([1, 5]), json!("Unbounded"), json!({"Included": 3}), json!({"Excluded": 300}),
+        json!("edge-7"), json!([101, 100, 103, 101]), json!([0, 1]), json!("with\u{0}nul"), json!({"a": "s", "b": [1, 2]}), json!(["s", [1]]), json!([256]), json!([-1]), json!({"Unix": [1, 2]}),
         json!({"Flush": {}}), json!({"Open": {}}), json!({"Retry": {}}), json!({"Flush": null}), json!({"Flush": []}), json!("Flush"), json!("Close"), json!({"Close": {}}), json!({"Close": null}),
         json!({"Open": {"mode": 3}}), json!({"Open": {"path": null}}), json!({"Open": []}), json!({"Open": [null, 1]}), json!({"Retry": {"n": 1, "x": 0}}), json!({"Flush": {"x": 1}}),
         json!({"id": 1, "k": 2, "j": 3}), json!({"id": 1}), json!({"id": "x"}), json!({"renamed-key": 5, "y": null}), json!({"renamed-key": 5, "y": {"renamed-key": 6, "y": null}}), json!({"x": 5}),
@@ -499,6 +529,8 @@ pub fn run(args: &Args) {
                 std::ops::Range<i32> => "Range<i32>", std::collections::BTreeSet<u8> => "BTreeSet<u8>", (i32,) => "(i32,)", std::ops::Bound<u8> => "Bound<u8>",
                 [u8; 0] => "[u8;0]", std::path::PathBuf => "PathBuf", Box<Option<i16>> => "Box<Option<i16>>", std::num::Wrapping<u8> => "Wrapping<u8>",
                 Option<Vec<Option<(bool, char)>>> => "Option<Vec<Option<(bool,char)>>>", (Version, Color) => "(Version,Color)", Vec<Version> => "Vec<Version>", Cmd => "Cmd", Vec<Cmd> => "Vec<Cmd>", Option<Cmd> => "Option<Cmd>",
+                std::ffi::CString => "CString", Box<std::ffi::CStr> => "Box<CStr>", Blobish => "Blobish", Vec<Blobish> => "Vec<Blobish>", BTreeMap<String, Blobish> => "BTreeMap<String,Blobish>",
+                std::ffi::OsString => "OsString", Box<str> => "Box<str>", std::rc::Rc<str> => "Rc<str>", std::borrow::Cow<'static, [u8]> => "Cow<[u8]>",
             );
         }
     }
